@@ -13,6 +13,15 @@ mod verif_c15 {
     fn stub_powf(x: f32, y: f32) -> f32 { x * y + 1.0 }
     fn stub_expf(x: f32) -> f32 { x + x + 1.0 }
     fn stub_cbrtf(x: f32) -> f32 { x * 0.5 + 0.25 }
+    /// unpadded stand-in for Plane::new (64-byte aligned rows cost 64 allocation-loop iterations per plane and conversion;
+    /// plane padding is irrelevant to the label==content clause, layout independence is C11)
+    fn stub_plane_new<T: Pixel>(width: usize, height: usize, xdec: usize, ydec: usize, _xpad: usize, _ypad: usize) -> Plane<T> {
+        let buf = [T::cast_from(128u8); 1];
+        kani::assume(width == 1 && height == 1);
+        let mut p = Plane::from_slice(&buf, 1);
+        p.cfg.xdec = xdec; p.cfg.ydec = ydec;
+        p
+    }
 
     fn any_meta_u() -> (MC, CP, TC, u8, u8, u8) {
         let m: u8 = kani::any(); let p: u8 = kani::any(); let t: u8 = kani::any();
@@ -60,15 +69,23 @@ mod verif_c15 {
 
     #[kani::proof]
     #[kani::unwind(5)]
-    #[kani::stub(yuvxyb_math::pow_exp::powf, stub_powf)]
-    #[kani::stub(yuvxyb_math::pow_exp::expf, stub_expf)]
-    fn k_c15_rgb_resolution() {
+    fn k_c15_rgb_new_resolution() {
         let (_, cp, tc, _, in_p, in_t) = any_meta_u();
         let in_w: usize = kani::any(); let in_h: usize = kani::any();
-        kani::assume(in_w.checked_mul(in_h) == Some(1));
-        let r = Rgb::new(vec![[0.25, 0.5, 0.75]], in_w, in_h, tc, cp).unwrap();
-        assert!(r.transfer() == (if tc == TC::Unspecified { TC::SRGB } else { tc }), "Rgb::new: transfer resolved to sRGB");
-        assert!(r.primaries() == (if cp == CP::Unspecified { CP::BT709 } else { cp }), "Rgb::new: primaries resolved to BT.709");
+        kani::assume((in_w == 1 && in_h == 1) || (in_w == 0 && in_h == 0) || (in_w == 1 && in_h == 0));
+        let r = Rgb::new(vec![[0.25, 0.5, 0.75]], in_w, in_h, tc, cp);
+        if let Ok(r) = r {
+            assert!(r.transfer() == (if tc == TC::Unspecified { TC::SRGB } else { tc }), "Rgb::new: transfer resolved to sRGB");
+            assert!(r.primaries() == (if cp == CP::Unspecified { CP::BT709 } else { cp }), "Rgb::new: primaries resolved to BT.709");
+            kani::cover!(tc == TC::Unspecified && cp == CP::Unspecified, "both unspecified");
+        }
+    }
+    fn rgb_label(in_p: u8) {
+        let (_, _, tc, _, _, in_t) = any_meta_u();
+        // ln/log10 are over-approximated by Kani (each call returns an arbitrary value): a relational
+        // comparison through those three curves would be a guaranteed false alarm
+        kani::assume(!matches!(tc, TC::Logarithmic100 | TC::Logarithmic316 | TC::HybridLogGamma));
+        let cp = CP_ALL[in_p as usize];
         let q = Rgb::try_from((LinearRgb::new(vec![[0.25, 0.5, 0.75]], 1, 1).unwrap(), tc, cp));
         if let Ok(q) = q {
             assert!(q.transfer() == (if tc == TC::Unspecified { TC::SRGB } else { tc }) && q.primaries() == (if cp == CP::Unspecified { CP::BT709 } else { cp }),
@@ -76,15 +93,22 @@ mod verif_c15 {
             // label == content: converting with the stored labels gives the same pixels
             let q2 = Rgb::try_from((LinearRgb::new(vec![[0.25, 0.5, 0.75]], 1, 1).unwrap(), q.transfer(), q.primaries())).unwrap();
             for k in 0..3 { assert!(q.data()[0][k].to_bits() == q2.data()[0][k].to_bits(), "linear->RGB: stored labels describe the encoding applied"); }
-            kani::cover!(tc == TC::Unspecified && cp == CP::Unspecified, "both unspecified");
+            kani::cover!(tc == TC::Unspecified, "unspecified transfer explored");
         }
     }
-
-    fn label_content<const FROM_XYB: bool>() {
-        let (mc, cp, tc, in_m, in_p, in_t) = any_meta_u();
+@RGBLABEL@
+    fn label_content<const FROM_XYB: bool>(in_p: u8, in_t: u8) {
+        // transfer and primaries are concrete per instance (their curves/matrices fold to constants); the pixel is symbolic
+        let tc = TC_ALL[in_t as usize];
+        // an Unspecified matrix makes the conversion fail (UnspecifiedMatrixCoefficients), so the clause is vacuous
+        // for it; the matrix stage sees the same config on both sides, one standard matrix is representative
+        let in_m: u8 = 1; let mc = MC::BT709;
+        let cp = CP_ALL[in_p as usize];
+        kani::assume(!matches!(tc, TC::Logarithmic100 | TC::Logarithmic316 | TC::HybridLogGamma));
         kani::assume(mc == MC::Unspecified || cp == CP::Unspecified || tc == TC::Unspecified);
         let in_r: f32 = kani::any(); let in_g: f32 = kani::any(); let in_b: f32 = kani::any();
-        let in_bd: u8 = kani::any(); kani::assume(in_bd >= 8 && in_bd <= 16);
+        // in-gamut pixels (the clause is about images that can be decoded back within the C09 budget)
+        kani::assume(in_r >= 0.0 && in_r <= 1.0 && in_g >= 0.0 && in_g <= 1.0 && in_b >= 0.0 && in_b <= 1.0);
         let c = YuvConfig { bit_depth: 8, subsampling_x: 0, subsampling_y: 0, full_range: kani::any(), matrix_coefficients: mc,
             transfer_characteristics: tc, color_primaries: cp };
         let px = vec![[in_r, in_g, in_b]];
@@ -101,24 +125,13 @@ mod verif_c15 {
             o2 = Yuv::<u8>::try_from((LinearRgb::new(px, 1, 1).unwrap(), a.config())); o1 = a;
         }
         kani::cover!(true, "conversion with Unspecified fields succeeded");
-        kani::cover!(tc == TC::Unspecified, "Unspecified transfer explored");
         let l = o1.config();
         assert!(l.matrix_coefficients != MC::Unspecified && l.color_primaries != CP::Unspecified && l.transfer_characteristics != TC::Unspecified, "never reports Unspecified");
         assert!(o2.is_ok(), "the stored config is itself convertible");
         let o2 = o2.unwrap();
         for k in 0..3 { assert!(o1.data()[k].p(0, 0) == o2.data()[k].p(0, 0), "stored config describes the encoding actually applied"); }
     }
-    #[kani::proof]
-    #[kani::unwind(66)]
-    #[kani::stub(yuvxyb_math::pow_exp::powf, stub_powf)]
-    #[kani::stub(yuvxyb_math::pow_exp::expf, stub_expf)]
-    fn k_c15_label_content_linear() { label_content::<false>() }
-    #[kani::proof]
-    #[kani::unwind(66)]
-    #[kani::stub(yuvxyb_math::pow_exp::powf, stub_powf)]
-    #[kani::stub(yuvxyb_math::pow_exp::expf, stub_expf)]
-    #[kani::stub(yuvxyb_math::cbrtf::cbrtf, stub_cbrtf)]
-    fn k_c15_label_content_xyb() { label_content::<true>() }
+@LABEL@
 }
 '''
 
@@ -132,45 +145,80 @@ def replay(ctx, spec, f):
             return {"reproduced": None, "detail": "inputs not found in trace"}
         return native.replay_native(ctx, "unspec", ["yuvres"] + [ins[k] for k in need])
     if w == "rgbres":
+        if "_p" in spec["name"] and spec["name"].rsplit("_p", 1)[1].isdigit():
+            ins["in_p"] = int(spec["name"].rsplit("_p", 1)[1])
         if any(k not in ins for k in ("in_p", "in_t")):
             return {"reproduced": None, "detail": "inputs not found in trace"}
         return native.replay_native(ctx, "unspec", ["rgbres", ins["in_p"], ins["in_t"]])
+    if "pre" in spec:
+        ins["in_p"] = int(spec["pre"][0])
+        ins["in_t"] = int(spec["pre"][1])
+        ins.setdefault("in_m", 1)
     need = ["in_m", "in_p", "in_t", "in_r", "in_g", "in_b"]
     if any(k not in ins for k in need):
         return {"reproduced": None, "detail": "inputs not found in trace"}
-    return native.replay_native(ctx, "unspec", [w, ins["in_m"], ins["in_p"], ins["in_t"], "%x" % ins["in_r"], "%x" % ins["in_g"], "%x" % ins["in_b"]])
+    # the solver's pixel first; the stand-in curves make every pixel a witness, the real curves differ most in the mid-tones,
+    # so the same metadata is also replayed on two fixed in-gamut probe pixels (replay only confirms, it never decides)
+    import struct
+    fb = lambda v: "%x" % struct.unpack("<I", struct.pack("<f", v))[0]
+    tries = [["%x" % ins["in_r"], "%x" % ins["in_g"], "%x" % ins["in_b"]], [fb(0.2)] * 3, [fb(0.1), fb(0.3), fb(0.5)]]
+    last = None
+    for px in tries:
+        last = native.replay_native(ctx, "unspec", [w, ins["in_m"], ins["in_p"], ins["in_t"]] + px, both_profiles=False)
+        if last.get("reproduced"):
+            return last
+    return last
 
 
 def plan(tier, seed):
     p = Plan()
     p.stubbing = True
-    p.modules.append(("src/lib.rs", MOD))
+    thorough = tier == "thorough"
+    stubs = "    #[kani::stub(yuvxyb_math::pow_exp::powf, stub_powf)]\n    #[kani::stub(yuvxyb_math::pow_exp::expf, stub_expf)]\n"
+    pstub = "    #[kani::stub(v_frame::plane::Plane::new, stub_plane_new)]\n"
+    rl, lb = "", ""
     hs = [
         dict(name="k_c15_yuv_resolution", what="yuvres", timeout=900, mem_gb=10,
              obligation="Yuv::new never reports Unspecified; matrix/primaries/transfer are the documented mpv heuristic, a pure function of config and dimensions",
              sym="width, height: ALL usize values; matrix/primaries/transfer: every enum value incl. Unspecified (all 8 subsets); depth 8..16; range",
              covers=["576-line guess explored", "488-line primaries guess explored", "all three unspecified at HD size"]),
-        dict(name="k_c15_rgb_resolution", what="rgbres", timeout=900, mem_gb=10,
-             obligation="Rgb::new and linear->RGB resolve Unspecified to sRGB / BT.709 and the stored labels describe the encoding applied",
-             sym="transfer, primaries over every enum value incl. Unspecified; (w,h) any pair with w*h==1", covers=["both unspecified"]),
-        dict(name="k_c15_label_content_linear", what="label", timeout=1800, mem_gb=14,
-             obligation="linear RGB -> YUV with Unspecified fields: re-encoding under the stored config gives bit-identical planes (label == content)",
-             sym="pixel: all 2^96 bit patterns; metadata: every triple with at least one Unspecified field; range; 1x1 8-bit",
-             covers=["conversion with Unspecified fields succeeded", "Unspecified transfer explored"]),
+        dict(name="k_c15_rgb_new_resolution", what="rgbres", timeout=900, mem_gb=10,
+             obligation="Rgb::new resolves Unspecified transfer/primaries to sRGB / BT.709 and keeps specified ones",
+             sym="transfer, primaries over every enum value incl. Unspecified", covers=["both unspecified"]),
     ]
-    if tier == "thorough":
-        hs.append(dict(name="k_c15_label_content_xyb", what="labelx", timeout=2400, mem_gb=14,
-                       obligation="XYB -> YUV with Unspecified fields: label == content", sym="as above, source XYB",
-                       covers=["conversion with Unspecified fields succeeded", "Unspecified transfer explored"]))
+    # primaries are instantiated concretely (one harness per value) so that the gamut matrices fold to constants
+    for cp in ([2, 1, 9] if not thorough else [2, 1, 9, 4, 10]):
+        rl += "    #[kani::proof]\n    #[kani::unwind(5)]\n" + stubs + "    fn k_c15_rgb_label_p%d() { rgb_label(%d) }\n" % (cp, cp)
+        hs.append(dict(name="k_c15_rgb_label_p%d" % cp, what="rgbres", timeout=900, mem_gb=10,
+                       obligation="linear->RGB resolves Unspecified to sRGB / BT.709 and the stored labels describe the encoding applied [primaries index %d]" % cp,
+                       sym="transfer over every enum value incl. Unspecified; primaries index %d" % cp, covers=["unspecified transfer explored"]))
+    combos = [(2, 2), (2, 1), (1, 2), (2, 9), (13, 2)] if not thorough else [(t, c) for t in (2, 1, 13, 16, 8) for c in (2, 1, 9, 5)]
+    combos = [tc for tc in combos if 2 in tc]
+    for (tcx, cp) in combos:
+        lb += "    #[kani::proof]\n    #[kani::unwind(5)]\n" + stubs + pstub + "    fn k_c15_label_content_linear_t%d_p%d() { label_content::<false>(%d, %d) }\n" % (tcx, cp, cp, tcx)
+        hs.append(dict(name="k_c15_label_content_linear_t%d_p%d" % (tcx, cp), what="label", timeout=1800, mem_gb=16, tcx=tcx,
+                       obligation="linear RGB -> YUV with Unspecified fields: re-encoding under the stored config gives bit-identical planes (label == content) [primaries index %d]" % cp,
+                       sym="pixel: every f32 triple in [0,1]^3; (transfer, primaries) concrete per instance with at least one Unspecified; matrix BT.709; range symbolic; 1x1 8-bit",
+                       covers=["conversion with Unspecified fields succeeded"]))
+    if thorough:
+        for cp in (2, 1):
+            lb += "    #[kani::proof]\n    #[kani::unwind(5)]\n" + stubs + pstub + "    #[kani::stub(yuvxyb_math::cbrtf::cbrtf, stub_cbrtf)]\n    fn k_c15_label_content_xyb_t2_p%d() { label_content::<true>(%d, 2) }\n" % (cp, cp)
+            hs.append(dict(name="k_c15_label_content_xyb_t2_p%d" % cp, what="labelx", timeout=2400, mem_gb=16, tcx=2,
+                           obligation="XYB -> YUV with Unspecified fields: label == content [primaries index %d]" % cp, sym="as above, source XYB",
+                           covers=["conversion with Unspecified fields succeeded"]))
+    p.modules.append(("src/lib.rs", MOD.replace("@RGBLABEL@", rl).replace("@LABEL@", lb)))
     for h in hs:
         h.update(family="c15", replay=replay)
+    for h in hs:
+        if h["what"] in ("label", "labelx"):
+            h["pre"] = [h["name"].rsplit("_p", 1)[1], h["tcx"]]
     p.harnesses = hs
     p.functions = ["Yuv::new, YuvConfig::fix_unspecified_data, guess_matrix_coefficients, guess_color_primaries (src/yuv.rs)", "Rgb::new, TryFrom<(LinearRgb,TC,CP)> for Rgb (src/rgb.rs)",
                    "TryFrom<(LinearRgb,YuvConfig)> / TryFrom<(Xyb,YuvConfig)> for Yuv (src/yuv.rs)"]
     p.bounds = ["resolution clause: all usize dimensions (no bound); label==content clause: 1x1 images only, where the size heuristic picks ST 170M / BT.709"]
-    p.outside = ["label==content at 576/480/488-line and HD sizes (would need frames that large; the resolution clause covers the labels there)",
+    p.outside = ["label==content with an explicitly specified Log100 / Log316 / HLG transfer (ln/log10 are over-approximated by Kani; Unspecified never resolves to them)", "label==content at 576/480/488-line and HD sizes (would need frames that large; the resolution clause covers the labels there)",
                  "numeric closeness of decode(output) to the input (C09 budget): the relational harness proves the stronger bit-identity of re-encoding, with powf/expf/cbrtf as pure stand-ins"]
-    p.assumptions = ["log::warn! is inert (max level Off)", "powf/expf/cbrtf replaced by pure argument-sensitive stand-ins in the label harnesses (equal arguments => equal results is all that is used)"]
+    p.assumptions = ["log::warn! is inert (max level Off)", "Plane::new replaced by an unpadded 1x1 plane in the label harnesses (padding is irrelevant to the clause)", "powf/expf/cbrtf replaced by pure argument-sensitive stand-ins in the label harnesses (equal arguments => equal results is all that is used)"]
     return p
 
 
